@@ -200,6 +200,14 @@ impl<'a> Parser<'a> {
                     // Check if next is { (namespace declaration) or something else
                     let saved2 = self.current.clone();
                     self.advance();
+                    // dotted name: namespace A.B.C {
+                    while self.check(&TokenKind::Dot) {
+                        self.advance();
+                        if !self.check_identifier() {
+                            break;
+                        }
+                        self.advance();
+                    }
                     let result = self.check(&TokenKind::LBrace);
                     self.current = saved2;
                     result
@@ -1460,6 +1468,11 @@ impl<'a> Parser<'a> {
         self.advance();
 
         let id = self.parse_identifier()?;
+        // `namespace A.B.C { ... }` is `namespace A { export namespace B { export namespace C { ... } } }`
+        let mut inner_ids = vec![];
+        while self.match_token(&TokenKind::Dot) {
+            inner_ids.push(self.parse_identifier()?);
+        }
         self.require_token(&TokenKind::LBrace)?;
 
         let mut body = vec![];
@@ -1470,11 +1483,24 @@ impl<'a> Parser<'a> {
         self.require_token(&TokenKind::RBrace)?;
 
         let span = self.span_from(start);
-        Ok(NamespaceDeclaration {
-            id,
-            body: body.into(),
-            span,
-        })
+        let mut body: Rc<[Statement]> = body.into();
+        while let Some(inner_id) = inner_ids.pop() {
+            let inner = NamespaceDeclaration {
+                id: inner_id,
+                body,
+                span,
+            };
+            body = Rc::from(vec![Statement::Export(Box::new(ExportDeclaration {
+                declaration: Some(Box::new(Statement::NamespaceDeclaration(Box::new(inner)))),
+                specifiers: vec![],
+                source: None,
+                namespace_export: None,
+                default: false,
+                type_only: false,
+                span,
+            }))]);
+        }
+        Ok(NamespaceDeclaration { id, body, span })
     }
 
     /// Parse ambient declarations: declare const/let/var/function/class/namespace/module/global
